@@ -176,3 +176,52 @@ func (c *vhChunked) Read(p []byte) (int, error) {
 
 func VH_C09_CodePagesIndependentOfReads() { VH_C02_CodePagesSignedAndVerified() }
 func VH_C01_CodePagesVerify()             { VH_C02_CodePagesSignedAndVerified() }
+
+// H11.csblob-r: one requirement expression (version word + opcode stream) as
+// `relic verify` prints it for an untrusted Mach-O: Format() on a version-1
+// requirement followed by 0..8 arbitrary bytes returns text or an error -
+// no panic for any opcode, operand length word (incl. lengths whose 4-byte
+// alignment wraps 32 bits) or truncation point. Date matches (five match
+// codes that format a calendar date) are assumed away: calendar arithmetic
+// on a symbolic instant is outside this encoding.
+func VH_C11_CSRequirementFormat() {
+	var n int
+	if vhTier() > 0 {
+		n = vhConcretize(vhInt("len", 0, 8), 9)
+	} else {
+		n = []int{0, 3, 4, 7, 8}[vhConcretize(vhInt("lenidx", 0, 4), 5)]
+	}
+	vhRequirementFormat(vhBytes("expr", n))
+}
+
+// H11.csblob-r2: longer expressions (3 and 4 words after the version): every
+// 32-bit word is a small number (opcode, slot, match code or operand length
+// 0..63), the text "aaaa", or within 16 of 2^32 (lengths whose rounding
+// wraps) - so nested and/or/not, operands with operands and truncation inside
+// an operand are reached without enumerating operand text.
+func VH_C11_CSRequirementFormatWords() {
+	words := 3
+	if vhTier() > 0 {
+		words = vhConcretize(vhInt("words", 3, 4), 5)
+	}
+	b := vhBytes("expr", 4*words)
+	for i := 0; i < words; i++ {
+		w := uint32(b[4*i])<<24 | uint32(b[4*i+1])<<16 | uint32(b[4*i+2])<<8 | uint32(b[4*i+3])
+		vhAssume(w < 64 || w == 0x61616161 || w >= 0xfffffff0)
+	}
+	vhRequirementFormat(b)
+}
+
+func vhRequirementFormat(expr []byte) {
+	b := append([]byte{0, 0, 0, 1}, expr...)
+	vhMaxLen(256) // strconv's digit-pair table is indexed by the value
+	vhLoopBound(4*len(b) + 16)
+	vhAllocLimit(4<<20 + 16*len(b))
+	r := &Requirement{Raw: b}
+	_, err := r.Format()
+	if err == nil {
+		vhReach("formatted") // vh:require formatted
+	} else {
+		vhReach("rejected") // vh:require rejected
+	}
+}
